@@ -147,6 +147,23 @@ pub fn run(outdir: &str, seed: u64, thorough: bool) -> serde_json::Value {
             }
             visible.push(tabs[i].1.clone());
         }
+        // one ON-join query in three qualifies the column by one of the joined relations: it is that relation's column or nothing
+        let qualified: Option<usize> = if mode <= 1 && r.chance(1, 3) { Some(r.below(ntab as u64) as usize) } else { None };
+        if let Some(j) = qualified {
+            let query = format!("SELECT {}.{} FROM {}{}", alias(j), col, from, if r.chance(1, 3) { format!(" WHERE {}.{} > 2", alias(j), col) } else { String::new() });
+            let owns = tabs[j].1.contains(&col);
+            let res = catch_unwind(AssertUnwindSafe(|| {
+                let q = parse(&query).map_err(|e| e.to_string())?;
+                Relation::try_from(QueryWithRelations::new(&q, &rels)).map(|rel| rel.schema().to_string()).map_err(|e| e.to_string())
+            }));
+            let outcome = match &res { Ok(Ok(_)) => "ok", Ok(Err(_)) => "err", Err(_) => "panic" };
+            st.evaluations += 1; st.distinct.insert(hash_str(&query));
+            st.bump(&format!("qualified_query_{}_{}", if owns { "owned" } else { "not_owned" }, outcome));
+            if !owns && outcome == "ok" {
+                st.violation(json!({"kind":"column-qualified-by-a-relation-that-does-not-own-it-bound","query":query,"tables":tabs.iter().map(|(n,c)| json!({"name":n,"columns":c})).collect::<Vec<_>>(),"column":col,"schema":res.unwrap().unwrap()}));
+            }
+            continue;
+        }
         let query = if mode == 4 {
             // the CTE named like table t2 shadows it: its only columns are those it selects
             format!("WITH t2 AS (SELECT k AS k, k AS z FROM t1) SELECT {} FROM t1 JOIN t2 ON t1.k = t2.k", col)
